@@ -329,8 +329,51 @@ class _Reqs:
                 tk = [s[1] for s in values.subterms(a[2]) if isinstance(s, tuple) and s and s[0] == "int"] if a[2][0] != "int" else [a[2][1]]
                 if tok in tk:
                     regs.append((bb, a))
-        if len(regs) != 1:
+        if not regs:
+            # functional form: `health_listener = config.health_check_port().map(|port| { bind; poll.register(&l, EVT_HEALTH_CHECK, ..); l })`:
+            # the closure runs exactly when a port is configured and what it returns becomes the Some(listener) that is stored
+            kregs = []
+            for b0, t0 in fn.calls():
+                if callee_name(t0["fn"].get("path", "")) != "map" or "option::Option" not in t0["fn"].get("path", ""):
+                    continue
+                a0 = ev.call_args(b0)
+                if not (is_call(values.strip_payload(a0[0])) and "health_check_port" in values.strip_payload(a0[0])[1]):
+                    continue
+                for kp in (t0.get("closures") or []):
+                    K = P.fns.get(kp)
+                    if K is None:
+                        continue
+                    kev = W.ev(kp)
+                    for b1, t1 in K.calls():
+                        if callee_name(t1["fn"].get("path", "")) == "register" and "Poll" in t1["fn"]["path"]:
+                            a1 = kev.call_args(b1)
+                            tk = [s_[1] for s_ in values.subterms(a1[2]) if isinstance(s_, tuple) and s_ and s_[0] == "int"] if a1[2][0] != "int" else [a1[2][1]]
+                            if tok in tk:
+                                kregs.append((K, kev, b1, a1, b0))
+            if len(kregs) == 1:
+                K, kev, b1, a1, b0 = kregs[0]
+                (cfn, cbb, cidx, fields) = W.ctor_fields(SERVER)[0]
+                hl = values.strip_payload(fields.get("health_listener"))
+                same = values.strip_payload(kev.ret()) == values.strip_payload(a1[1]) and all(K.dominates(b1, x) for x in K.exits())
+                stored = hl == values.strip_payload(ev.call_term(b0)) or hl == values.strip_payload(kev.ret())
+                if not (same and stored):
+                    return False, "the listener registered in the health_check_port().map(..) closure is not the one stored in health_listener"
+                regs = "functional"
+        if regs != "functional" and len(regs) != 1:
             return False, "expected exactly one registration of EVT_HEALTH_CHECK, found %d" % len(regs)
+        if regs == "functional":
+            pe = P.fns.get(SERVER + "::process_events")
+            pev = W.ev(pe.path)
+            PIN = flow.must_facts(pe, pev)
+            for b2, t2 in pe.calls():
+                if strip_generics(t2["fn"].get("path", "")).endswith("Server::handle_health_check"):
+                    rr = flow.rel_facts_at(PIN, b2)
+                    if not any(r[0] == "Eq" and r[2] == ("int", tok) for r in rr):
+                        return False, "handle_health_check is called without matching the token"
+            callers = {c[0] for c in P.callers(SERVER + "::handle_health_check")}
+            if callers != {SERVER + "::process_events"}:
+                return False, "handle_health_check has other callers: %s" % sorted(callers)
+            return True, "token %s registered only inside health_check_port().map(..), whose result is the stored listener; handler only under that token" % tok
         bb, a = regs[0]
         (cfn, cbb, cidx, fields) = W.ctor_fields(SERVER)[0]
         hl = fields.get("health_listener")
